@@ -277,6 +277,12 @@ pub struct ThreadReplay {
     /// scheduling strategy: empty = seeded random with `switch_pct`; otherwise PCT with these change points
     #[serde(default)]
     pub pct_change_points: Vec<u64>,
+    /// per client and operation: the earlier own row (its operation number) deleted after this insert
+    #[serde(default)]
+    pub deletes: Vec<Vec<Option<u32>>>,
+    /// tables have a PRIMARY KEY, so every insert and delete also works on an index tree
+    #[serde(default)]
+    pub indexed: bool,
     /// table each client's i-th SELECT COUNT(*) reads (readers and writers meet on the same tables)
     #[serde(default)]
     pub read_tables: Vec<Vec<u32>>,
@@ -296,6 +302,27 @@ pub fn gen_case(verif_seed: u64, idx: u64) -> ThreadReplay {
     // half of the runs: all clients insert into one table (finding T1, repaired); reads go to any table
     let shared_table = rng.chance(50);
     let read_tables: Vec<Vec<u32>> = (0..clients).map(|_| (0..ops).map(|_| rng.below(clients as u64) as u32).collect()).collect();
+    // half of the runs also delete: after its i-th insert a client may delete one of its own earlier
+    // rows (each at most once), so deletes never meet another client's delete
+    let with_deletes = rng.chance(50);
+    let deletes: Vec<Vec<Option<u32>>> = (0..clients)
+        .map(|_| {
+            let mut gone: Vec<u32> = vec![];
+            (0..ops)
+                .map(|i| {
+                    let cands: Vec<u32> = (0..=i).filter(|j| !gone.contains(j)).collect();
+                    if with_deletes && !cands.is_empty() && rng.chance(40) {
+                        let j = cands[rng.below(cands.len() as u64) as usize];
+                        gone.push(j);
+                        Some(j)
+                    } else {
+                        None
+                    }
+                })
+                .collect()
+        })
+        .collect();
+    let indexed = rng.chance(40);
     ThreadReplay {
         property: "C14".into(),
         engine: "E4-threadsim".into(),
@@ -304,6 +331,8 @@ pub fn gen_case(verif_seed: u64, idx: u64) -> ThreadReplay {
         clients,
         ops,
         read_tables,
+        deletes,
+        indexed,
         shared_table,
         sessions: rng.chance(35),
         switch_pct: *rng.pick(&[10u64, 30, 50, 80]),
@@ -372,7 +401,7 @@ pub fn run_case(case: &ThreadReplay, idx: u64) -> RunResult {
     };
     let ntables = if case.shared_table { 1 } else { case.clients };
     for t in 0..ntables {
-        let o = eng.exec(&format!("CREATE TABLE t{t} (id BIGINT, v INT)"));
+        let o = eng.exec(&if case.indexed { format!("CREATE TABLE t{t} (id BIGINT, v INT, PRIMARY KEY (id))") } else { format!("CREATE TABLE t{t} (id BIGINT, v INT)") });
         if o.is_err() {
             viol = Some(Violation { oracle: "O-res".into(), event: 0, detail: format!("setup failed: {}", o.short()) });
         }
@@ -390,17 +419,25 @@ pub fn run_case(case: &ThreadReplay, idx: u64) -> RunResult {
             let b2 = baton.clone();
             let (ops, shared, sessions) = (case.ops, case.shared_table, case.sessions);
             let reads: Vec<u32> = case.read_tables.get(c as usize).cloned().unwrap_or_default();
+            let dels: Vec<Option<u32>> = case.deletes.get(c as usize).cloned().unwrap_or_default();
             handles.push(baton.spawn_client(move || {
                 use std::sync::atomic::Ordering::SeqCst;
                 let table = if shared { 0 } else { c };
                 let mut sess = if sessions { eng.db().session().ok() } else { None };
                 for i in 0..ops {
-                    for kind in 0..2 {
+                    for kind in 0..3 {
                         if b2.is_deadlocked() {
                             return;
                         }
                         let rt = if shared { 0 } else { reads.get(i as usize).copied().unwrap_or(table) };
-                        let sql = if kind == 0 { format!("INSERT INTO t{table} VALUES ({}, {i})", (c + 1) * 1000 + i) } else { format!("SELECT COUNT(*) FROM t{rt}") };
+                        let sql = match kind {
+                            0 => format!("INSERT INTO t{table} VALUES ({}, {i})", (c + 1) * 1000 + i),
+                            1 => match dels.get(i as usize).copied().flatten() {
+                                Some(j) => format!("DELETE FROM t{table} WHERE id = {}", (c + 1) * 1000 + j),
+                                None => continue,
+                            },
+                            _ => format!("SELECT COUNT(*) FROM t{rt}"),
+                        };
                         b2.begin_call();
                         let s0 = seq.fetch_add(1, SeqCst);
                         let out = match sess.as_mut() {
@@ -485,16 +522,30 @@ pub fn run_case(case: &ThreadReplay, idx: u64) -> RunResult {
                     break 'outer;
                 }
             }
+            if s.starts_with("DELETE FROM") {
+                // the row is the client's own, inserted (and acknowledged) earlier: exactly one row goes
+                if !matches!(o, Out::Count(1)) {
+                    viol = Some(Violation { oracle: "O-res".into(), event: *a as usize, detail: format!("client {c}: `{s}` of a row the client had inserted itself returned {}", o.short()) });
+                    break 'outer;
+                }
+                counters.insert("deletes_checked".into(), counters.get("deletes_checked").copied().unwrap_or(0) + 1);
+            }
             if s.starts_with("SELECT COUNT") && !case.sessions {
                 if let Out::Rows(r) = o {
                     let n: u64 = r[0][0].parse().unwrap_or(0);
                     let table = s.rsplit(' ').next().unwrap().to_string();
                     // inserts into this table acknowledged before the call started ... invoked before it returned
                     let base = if table == "t0" { 1 } else { 0 };
-                    let lo = base + all.iter().filter(|x| x.2.starts_with(&format!("INSERT INTO {table} ")) && x.1 < *a && !x.3.is_err()).count() as u64;
-                    let hi = base + all.iter().filter(|x| x.2.starts_with(&format!("INSERT INTO {table} ")) && x.0 < *b).count() as u64;
+                    // at least: inserts acknowledged before it started, minus deletes invoked before it returned;
+                    // at most: inserts invoked before it returned, minus deletes acknowledged before it started
+                    let ins_acked = all.iter().filter(|x| x.2.starts_with(&format!("INSERT INTO {table} ")) && x.1 < *a && !x.3.is_err()).count() as u64;
+                    let ins_invoked = all.iter().filter(|x| x.2.starts_with(&format!("INSERT INTO {table} ")) && x.0 < *b).count() as u64;
+                    let del_acked = all.iter().filter(|x| x.2.starts_with(&format!("DELETE FROM {table} ")) && x.1 < *a && !x.3.is_err()).count() as u64;
+                    let del_invoked = all.iter().filter(|x| x.2.starts_with(&format!("DELETE FROM {table} ")) && x.0 < *b).count() as u64;
+                    let lo = (base + ins_acked).saturating_sub(del_invoked);
+                    let hi = (base + ins_invoked).saturating_sub(del_acked);
                     if n < lo || n > hi {
-                        viol = Some(Violation { oracle: "O-linear".into(), event: *a as usize, detail: format!("client {c}: `{s}` returned {n}, but {lo} inserts had been acknowledged before it started and only {hi} had been invoked before it returned") });
+                        viol = Some(Violation { oracle: "O-linear".into(), event: *a as usize, detail: format!("client {c}: `{s}` returned {n}; inserts acknowledged before it started {ins_acked} / invoked before it returned {ins_invoked}, deletes acknowledged before it started {del_acked} / invoked before it returned {del_invoked}: allowed {lo}..={hi}") });
                         break 'outer;
                     }
                     counters.insert("count_reads_checked".into(), counters.get("count_reads_checked").copied().unwrap_or(0) + 1);
@@ -504,12 +555,14 @@ pub fn run_case(case: &ThreadReplay, idx: u64) -> RunResult {
         // final contents = all acknowledged inserts
         if viol.is_none() {
             for t in 0..ntables {
+                let committed = |x: &&(u64, u64, String, Out, u32)| !case.sessions || all.iter().any(|y| y.4 == x.4 && y.2 == "COMMIT" && !y.3.is_err());
                 let want = (if t == 0 { 1 } else { 0 })
-                    + all.iter().filter(|x| x.2.starts_with(&format!("INSERT INTO t{t} ")) && !x.3.is_err()).filter(|x| !case.sessions || all.iter().any(|y| y.4 == x.4 && y.2 == "COMMIT" && !y.3.is_err())).count();
+                    + all.iter().filter(|x| x.2.starts_with(&format!("INSERT INTO t{t} ")) && !x.3.is_err()).filter(committed).count()
+                    - all.iter().filter(|x| x.2.starts_with(&format!("DELETE FROM t{t} ")) && !x.3.is_err()).filter(committed).count();
                 match eng.exec(&format!("SELECT COUNT(*) FROM t{t}")) {
                     Out::Rows(r) if r[0][0] == want.to_string() => {}
                     o => {
-                        viol = Some(Violation { oracle: "O-state".into(), event: 0, detail: format!("table t{t}: {want} inserts were acknowledged (and committed), final COUNT(*) = {}", o.short()) });
+                        viol = Some(Violation { oracle: "O-state".into(), event: 0, detail: format!("table t{t}: acknowledged (and committed) inserts minus deletes = {want}, final COUNT(*) = {}", o.short()) });
                         break;
                     }
                 }
@@ -535,5 +588,5 @@ pub fn run_case(case: &ThreadReplay, idx: u64) -> RunResult {
 }
 
 pub fn sample_of(case: &ThreadReplay) -> serde_json::Value {
-    serde_json::json!({"seed": case.seed, "cfg": case.cfg, "clients": case.clients, "ops_per_client": case.ops, "shared_table": case.shared_table, "sessions": case.sessions, "switch_pct": case.switch_pct, "pct_change_points": case.pct_change_points})
+    serde_json::json!({"seed": case.seed, "cfg": case.cfg, "clients": case.clients, "ops_per_client": case.ops, "shared_table": case.shared_table, "sessions": case.sessions, "indexed": case.indexed, "deletes": case.deletes.iter().map(|d| d.iter().filter(|x| x.is_some()).count()).sum::<usize>(), "switch_pct": case.switch_pct, "pct_change_points": case.pct_change_points})
 }
